@@ -247,10 +247,11 @@ def run(chk: common.Check):
     # serial numbers never influence predictions: renumber serials (incl. hybrid-36 letters) of a real structure
     from vlib import structures
     n_ser = 0
-    for pdbname, window in (("1FTJ-Chain-A.pdb", None),) if chk.thorough else (("3SGB-subset.pdb", None),):
+    # (1HPX: a structure with a titratable hetero group, whose HETATM records then carry five-character serials)
+    for pdbname, window in (("1FTJ-Chain-A.pdb", None), ("1HPX.pdb", None), ("4DFR.pdb", None)) if chk.thorough else (("3SGB-subset.pdb", None), ("1HPX.pdb", None)):
         text = structures.read(pdbname)
         base = structures.results(text)
-        for mode in ("reverse", "hy36", "same"):
+        for mode in (("reverse", "hy36", "same", "plus20000") if pdbname != "1HPX.pdb" or chk.thorough else ("hy36", "plus20000")):
             lines = []
             atoms = [l for l in text.splitlines() if l[:6] in ("ATOM  ", "HETATM")]
             k = 0
@@ -261,6 +262,8 @@ def run(chk: common.Check):
                         ser = str(len(atoms) - k + 1).rjust(5)
                     elif mode == "hy36":
                         ser = ref_encode(5, 99990 + 37 * k)
+                    elif mode == "plus20000":
+                        ser = str(20000 + k).rjust(5)
                     else:
                         ser = "    7"
                     l = l[:6] + ser + l[11:]
